@@ -1,9 +1,10 @@
 import NimaVerif.Model.NPath
 /-!
 SPEC (C13): how Nix reads a text of the *data fragment* — integers, floats, `"…"` strings without
-interpolation, `true`/`false`/`null`, lists, attribute sets with plain identifier keys, and a unary
-minus in front of a number where an operator expression may stand (top level, binding value) but
-NOT as a list element (list elements are `expr_select`; `[ -1 ]` is a syntax error).
+interpolation, `true`/`false`/`null`, lists, attribute sets with plain identifier keys, parentheses,
+and a unary minus in front of a number where an operator expression may stand (top level, binding
+value, inside parentheses) but NOT as a list element (list elements are `expr_select`; `[ -1 ]` is a
+syntax error, `[ (-1) ]` is a list holding -1).
 
 The reader is deliberately *partial*: whatever is outside the fragment (comments, paths,
 applications such as `1 e-07`, juxtaposed tokens such as `1.5.2`, interpolation, `rec`, `inherit`,
@@ -15,7 +16,7 @@ Token rules mirrored from the Nix lexer (`lexer.l`):
   STRING body: `decodeBody` (Model/Escape.lean); a raw carriage return inside a string literal is
          normalised to a line feed by Nix (`unescapeStr`), so a body holding a raw CR is outside the
          fragment (the CR would not be read back)
-A literal or identifier must be followed by white space, `;`, `]`, `}` (identifiers also by `=`) or
+A literal or identifier must be followed by white space, `;`, `]`, `}`, `)` (identifiers also by `=`) or
 the end of the text; anything else would start a different Nix token (a path `1/2`, an application
 `1a`, …) and is rejected.
 -/
@@ -23,7 +24,7 @@ namespace Nima
 
 inductive Tok where
   | int (n : Nat) | float (t : Text) | str (s : Text) | ident (s : Text)
-  | lbrack | rbrack | lbrace | rbrace | eq | semi | minus
+  | lbrack | rbrack | lbrace | rbrace | lparen | rparen | eq | semi | minus
 deriving DecidableEq, Repr, Inhabited
 
 /-- The data a text denotes. Floats are kept as (sign, literal text): two floats are the same when
@@ -45,11 +46,11 @@ def isNumChar (c : Char) : Bool :=
 /-- what may follow a literal -/
 def litEnd : Text → Bool
   | [] => true
-  | c :: _ => isWs c || c == ';' || c == ']' || c == '}'
+  | c :: _ => isWs c || c == ';' || c == ']' || c == '}' || c == ')'
 /-- what may follow an identifier -/
 def identEnd : Text → Bool
   | [] => true
-  | c :: _ => isWs c || c == ';' || c == ']' || c == '}' || c == '='
+  | c :: _ => isWs c || c == ';' || c == ']' || c == '}' || c == ')' || c == '='
 
 /-- Largest integer literal Nix accepts (`2^63 - 1`). -/
 def nixIntMax : Nat := 9223372036854775807
@@ -97,6 +98,8 @@ def lexStep : Text → Option (Option Tok × Text)
     else if c = '}' then some (some .rbrace, cs)
     else if c = '=' then some (some .eq, cs)
     else if c = ';' then some (some .semi, cs)
+    else if c = '(' then some (some .lparen, cs)
+    else if c = ')' then some (some .rparen, cs)
     else if c = '-' then some (some .minus, cs)
     else if c = '"' then
       match scanStr cs with
@@ -160,6 +163,11 @@ def pElem : Nat → List Tok → Option (Data × List Tok)
     | .lbrace :: r =>
       (pBinds n r).bind fun p =>
         if keysNodup (p.1.map (·.1)) then some (.attrs p.1, p.2) else none
+    | .lparen :: r =>
+      (pValue n r).bind fun p =>
+        match p.2 with
+        | .rparen :: r' => some (p.1, r')
+        | _ => none
     | _ => none
 /-- list elements up to the closing bracket -/
 def pElems : Nat → List Tok → Option (List Data × List Tok)
